@@ -1396,3 +1396,51 @@ T('bridge-worker-guarded-hook', ['C17'],
 B('bridge-worker-swallows-the-failure', ['C17'], ['C17-R4'],
   (A, "            aio.set_event_loop(loop)\n            return loop.run_until_complete(aw)\n",
       "            aio.set_event_loop(loop)\n            try:\n                return loop.run_until_complete(aw)\n            except Exception:\n                logger.exception('awaitable failed')\n                return None  # type: ignore\n"))
+
+# --- seeded wave 12 (refactorings gone wrong) -------------------------------------------------------------------
+def _cm_lock_edits(safe: bool):
+    gen = ("    @contextmanager\n    def _in_flight() -> Any:\n        event_making_lock.acquire()\n"
+           + ("        try:\n            yield events\n        finally:\n            event_making_lock.release()\n\n" if safe else
+              "        yield events\n        event_making_lock.release()\n\n"))
+    return [
+        (A, "from functools import partial, wraps\n", "from functools import partial, wraps\nfrom contextlib import contextmanager\n"),
+        (A, "    @wraps(_func)\n    async def _wrapper(*args: Any, **kwargs: Any) -> Any:\n", gen + "    @wraps(_func)\n    async def _wrapper(*args: Any, **kwargs: Any) -> Any:\n"),
+        (A, "            with event_making_lock:\n                try:  # verify nothing cached while waiting for lock\n",
+            "            with _in_flight() as markers:\n                try:  # verify nothing cached while waiting for lock\n"),
+        (A, "                    caching_loop, event = events[key]\n", "                    caching_loop, event = markers[key]\n"),
+        (A, "                    events[key] = caching_loop, event\n", "                    markers[key] = caching_loop, event\n"),
+        (A, "                    with event_making_lock:\n                        # Wake up any waiting tasks\n",
+            "                    with _in_flight() as markers:\n                        # Wake up any waiting tasks\n"),
+        (A, "                        if events.get(key, (None, None))[1] is event:\n                            del events[key]\n",
+            "                        if markers.get(key, (None, None))[1] is event:\n                            del markers[key]\n"),
+    ]
+T('cache-lock-behind-a-safe-context-manager', ['C01', 'C05', 'C06', 'C14'], *_cm_lock_edits(True))
+B('cache-lock-behind-a-leaky-context-manager', ['C05'], ['C05-R9'], *_cm_lock_edits(False))
+B('cache-store-outside-the-release', ['C06', 'C05'], ['C06-R7', 'C05-R1'],
+  (A, "                except Exception:\n                    raise  # Bubble any errors without caching\n                else:\n                    _cache[key] = result  # Cache for other tasks\n                finally:\n",
+      "                finally:\n"),
+  (A, "                            del events[key]\n                return result\n", "                            del events[key]\n                _cache[key] = result\n                return result\n"))
+B('lock-counter-read-after-the-unlock', ['C12', 'C02'], ['C12-R10', 'C02-R13'],
+  (F, "        try:\n            for _ in range(levels):\n                self._thread_lock.release()\n        except RuntimeError:  # not reentrant and already unlocked\n            pass\n",
+      "        try:\n            for _ in range(levels):\n                self._thread_lock.release()\n        except RuntimeError:  # not reentrant and already unlocked\n            pass\n        if self._lock_counter:\n            _logger.debug('still %s level(s) held', self._lock_counter)\n"))
+B('cache-computer-returns-through-the-cache', ['C05'], ['C05-R10'],
+  (A, "                            del events[key]\n                return result\n", "                            del events[key]\n                continue  # served from the cache like everybody else\n"))
+T('options-rebound-by-a-shared-helper', ['C15'],
+  (A, "        return partial(buffer_until_timeout, timeout=timeout)  # type: ignore\n", "        return _with_options(buffer_until_timeout, timeout=timeout)  # type: ignore\n"),
+  (A, "_BufferFunc = Callable[[Set[T]], Awaitable[None]]\n", "def _with_options(deco: Any, **options: Any) -> Any:\n    \"\"\"Re-bind the decorator for its @deco(option=...) form.\"\"\"\n    return partial(deco, **options)\n\n\n_BufferFunc = Callable[[Set[T]], Awaitable[None]]\n"))
+B('options-filtered-by-a-shared-helper', ['C15'], ['C15-R1'],
+  (A, "        return partial(buffer_until_timeout, timeout=timeout)  # type: ignore\n", "        return _with_options(buffer_until_timeout, timeout=timeout)  # type: ignore\n"),
+  (A, "_BufferFunc = Callable[[Set[T]], Awaitable[None]]\n", "def _with_options(deco: Any, **options: Any) -> Any:\n    return partial(deco, **{k: v for k, v in options.items() if v})\n\n\n_BufferFunc = Callable[[Set[T]], Awaitable[None]]\n"))
+B('pair-split-never-unpacked', ['C19'], ['C19-R2'],
+  (P, "                k, v = pair.split(sep, 1)\n", "                pair = pair.split(sep, 1)\n"),
+  (P, "            return parse_tuple(k, v)\n        return parse_tuple(*pair)\n", "        return parse_tuple(*pair)\n"))
+B('buf-loader-returns-a-list-merged-outside-the-guard', ['C03', 'C07'], ['C03-L1', 'C07-L1'],
+  (A, "                async for i in iterable:\n                    inputs.add(i)\n            except BaseException:  # noqa\n                logger.exception(\"Failed to get args from: %r\", iterable)\n",
+      "                inputs.update(await _exhaust(iterable))\n            except RuntimeError:  # noqa\n                logger.exception(\"Failed to get args from: %r\", iterable)\n"),
+  (A, "_BufferFunc = Callable[[Set[T]], Awaitable[None]]\n", "async def _exhaust(iterable: Any) -> Any:\n    out = []\n    try:\n        async for i in iterable:\n            out.append(i)\n    except BaseException:  # noqa\n        logger.exception('Failed to get args from: %r', iterable)\n    return out\n\n\n_BufferFunc = Callable[[Set[T]], Awaitable[None]]\n"))
+B('exhaust-remembers-through-a-default', ['C18'], ['C18-U1'],
+  (I, "def exhaust(iterable: Iterable[Any]) -> None:\n", "def exhaust(iterable: Iterable[Any], _seen: list = []) -> None:  # type: ignore\n"),
+  (I, "    deque(iterable, maxlen=0)\n", "    _seen.append(id(iterable))\n    deque(iterable, maxlen=0)\n"))
+T('exhaust-reads-a-default-table', ['C18'],
+  (I, "def exhaust(iterable: Iterable[Any]) -> None:\n", "def exhaust(iterable: Iterable[Any], _kinds: dict = {'lazy': 0}) -> None:  # type: ignore\n"),
+  (I, "    deque(iterable, maxlen=0)\n", "    assert 'lazy' in _kinds\n    deque(iterable, maxlen=0)\n"))
